@@ -383,15 +383,21 @@ def run_target(target, repo=None, timeout_ms=QUICK_TIMEOUT_MS, tier='quick'):
     reg.inline_now = set(reg.inline_now) | {target.qualname}
     work = [[]]
     seen = 0
+    budget_s = getattr(target, 'time_budget_s', None) or (150 if tier == 'quick' else 1200)
+    deadline = t0 + budget_s
     while work:
         prefix = work.pop()
         seen += 1
+        if time.time() > deadline:
+            res['undecided'].append('time budget of the target exceeded (%ds)' % budget_s)
+            break
         if seen > target.max_paths:
             res['undecided'].append('path budget exceeded (%d)' % target.max_paths)
             break
         Vv.reset_fresh()
         ip = Interp(repo, reg, prefix, solver_timeout_ms=timeout_ms)
         ip.target = target
+        ip.deadline = deadline
         ctx = {}
         try:
             ctx = target.scenario(ip, repo)
@@ -473,11 +479,28 @@ def discharge(ob, timeout_ms, target, ctx):
         if r3 is not None:
             out['backend'] = 'z3-4.8.12-cli'
             r = r3
+    if r == z3.unknown or r == 'unknown':
+        # counter-model SEARCH under simplifying extra constraints (e.g. dt = 1): a model found
+        # this way is still a genuine counterexample of the original obligation; nothing is
+        # ever reported as proved on the strength of these constraints.
+        for hint in _search_hints(s):
+            s.push()
+            s.add(hint)
+            s.set('timeout', max(2000, timeout_ms // 2))
+            rr = s.check()
+            if rr == z3.sat:
+                r = z3.sat
+                out['backend'] = 'z3 (counter-model search with %s)' % hint
+                m_ = s.model()
+                out['_model_obj'] = m_
+                s.pop()
+                break
+            s.pop()
     if r == z3.unsat or r == 'unsat':
         out['result'] = 'discharged'
     elif r == z3.sat:
         out['result'] = 'refuted'
-        m = s.model()
+        m = out.pop('_model_obj', None) or s.model()
         out['model'] = _model_inputs(m, ctx)
         out['model_full'] = {str(d): str(m[d]) for d in m.decls()[:40]}
     elif r == 'sat':
@@ -521,6 +544,28 @@ def _val(m, v):
             return False
         return str(e)
     return str(v)
+
+
+def _search_hints(solver):
+    """simplifying constraints tried when a query stays `unknown`: fix time-step-like reals"""
+    names = {}
+    for a in solver.assertions():
+        stack = [a]
+        seen = set()
+        while stack:
+            e = stack.pop()
+            if e.get_id() in seen:
+                continue
+            seen.add(e.get_id())
+            if z3.is_const(e) and e.decl().kind() == z3.Z3_OP_UNINTERPRETED and z3.is_real(e):
+                names[str(e)] = e
+            stack.extend(e.children())
+    dts = [v for k, v in names.items() if k.startswith('dt') or k in ('delta', 'D')]
+    hints = []
+    if dts:
+        hints.append(z3.And([v == 1 for v in dts]))
+        hints.append(z3.And([v == z3.RealVal('1/4') for v in dts]))
+    return hints
 
 
 def _z3_cli(solver, timeout_ms):
